@@ -1,6 +1,8 @@
 package actor
 
 import (
+	"encoding/binary"
+
 	"github.com/zeebo/xxh3"
 )
 
@@ -29,9 +31,10 @@ func (pid *PID) Child(id string) *PID {
 }
 
 func (pid *PID) LookupKey() uint64 {
-	key := []byte(pid.Address)
-	// keep address and id apart: ("ab","c") and ("a","bc") are different PIDs.
-	key = append(key, 0)
+	// keep address and id apart: ("ab","c") and ("a","bc") are different PIDs. The
+	// length prefix makes the key injective whatever bytes address and id contain.
+	key := binary.AppendUvarint(nil, uint64(len(pid.Address)))
+	key = append(key, pid.Address...)
 	key = append(key, pid.ID...)
 	return xxh3.Hash(key)
 }
